@@ -3,7 +3,7 @@
 set -e
 cd "$(dirname "$0")"
 /venv/bin/python -c "import networkx" 2>/dev/null || /venv/bin/pip install --no-index --find-links /opt/veriftools/wheels networkx >/dev/null
-/venv/bin/python -c "from harness import translate_flags, translate_config; translate_flags.regenerate(); translate_config.regenerate()" >/dev/null
+/venv/bin/python -c "from harness import translate_flags, translate_config, translate_wiring; translate_flags.regenerate(); translate_config.regenerate(); translate_wiring.regenerate()" >/dev/null
 cd lean
 lake build 2>&1 | grep -v "^✔" | tail -20
 test -x .lake/build/bin/pta_driver
